@@ -165,6 +165,30 @@ def case(layout, nl, variant, seq_seed=0):
                     getattr(m, f'claim_{side}_comment')()
                     if attribution(f) != a: return f'unclaim_{side} then claim_{side} on {type(m).__name__} does not restore the attribution: {a} -> {attribution(f)}', True
                     if tree.store_text(f.token_store) != text: return 'unclaim/claim changed the text', True
+    if variant == 'refused-batch':
+        # a batch naming a comment the field does not hold must be refused as a whole: owners and flags exactly as before (C14, C19)
+        other = PARSER.parse('\n; foreign\n\n2000-01-01 open Assets:Zz\n', models.File)
+        foreign = [t for t in other.token_store if isinstance(t, models.BlockComment)][0]
+        for m in docops.tree_models(f):
+            for n in dir(type(m)):
+                if not n.endswith('_with_comments'): continue
+                view = getattr(m, n)
+                own = [x for x in view if isinstance(x, models.BlockComment)]
+                if not own: continue
+                before = (sorted((k, tuple(v)) for k, v in owners(f).items()), [(id(t), t.claimed) for t in f.token_store if isinstance(t, models.BlockComment)])
+                try: view.unclaim_interleaving_comments(own + [foreign]); return f'{type(m).__name__}.{n}.unclaim_interleaving_comments accepted a foreign comment', True
+                except ValueError: pass
+                after = (sorted((k, tuple(v)) for k, v in owners(f).items()), [(id(t), t.claimed) for t in f.token_store if isinstance(t, models.BlockComment)])
+                if after != before: return f'{type(m).__name__}.{n}.unclaim_interleaving_comments refused a batch but changed owners / claimed flags', True
+                msg = ownership_ok(f)
+                if msg: return f'after a refused unclaim: {msg}', True
+                released = list(view.unclaim_interleaving_comments())
+                before = (sorted((k, tuple(v)) for k, v in owners(f).items()), [(id(t), t.claimed) for t in f.token_store if isinstance(t, models.BlockComment)])
+                try: view.claim_interleaving_comments(released + [foreign]); return f'{type(m).__name__}.{n}.claim_interleaving_comments accepted a foreign comment', True
+                except ValueError: pass
+                after = (sorted((k, tuple(v)) for k, v in owners(f).items()), [(id(t), t.claimed) for t in f.token_store if isinstance(t, models.BlockComment)])
+                if after != before: return f'{type(m).__name__}.{n}.claim_interleaving_comments refused a batch but changed owners / claimed flags', True
+                view.claim_interleaving_comments()
     if variant == 'sequences':
         rnd = random.Random(seq_seed)
         calls = []
@@ -202,7 +226,7 @@ def run(prop, tier, seed):
         has_c = any('c' in g.lower() for g in layout[1:])
         for nl in ('\n', '\r\n'):
             if nl == '\r\n' and tier == 'quick' and rnd.random() > 0.3: continue
-            for variant in ('rule', 'idempotent', 'unclaim-claim', 'sequences'):
+            for variant in ('rule', 'idempotent', 'unclaim-claim', 'sequences', 'refused-batch'):
                 key = (layout, nl, variant)
                 if not rep.mine(key): continue
                 try: msg, nt = case(layout, nl, variant, seed + hash(layout) % 1000)
